@@ -32,7 +32,7 @@ import types
 
 import z3
 
-from .sym import (Sym, SInt, SBool, SReal, SBuf, SOpaque, Blob, PathCtx, Infeasible, Unsupported, PathBudget,
+from .sym import (Sym, SInt, SBool, SReal, SBuf, SOpaque, SIPStr, SDecStr, Blob, PathCtx, Infeasible, Unsupported, PathBudget,
                   explore, mk_bool, mk_int, bool_term, int_term, Obligation)
 from .interp import Interp, Config, Frame, PyRaise, has_sym, SOURCES
 from . import bufops
@@ -163,6 +163,24 @@ class Str(Shape):
         v = b.rng.choice(['', 'a', 'abc', 'h\u00e9llo', '\u4e2d\u6587', 'x' * 40])
         b.values[name] = v
         return v
+
+class DecStr(Shape):
+    """the decimal text of an integer lo..hi (a \\d+ regex group)"""
+    def __init__(self, lo=0, hi=None):
+        self.lo, self.hi = lo, hi
+    def build(self, b, name):
+        v = Int(self.lo, self.hi).build(b, name)
+        if b.mode == 'sym':
+            return SDecStr(v)
+        return str(v)
+
+class IPStr(Shape):
+    """the dotted-quad text of four octets"""
+    def build(self, b, name):
+        octs = [Int(0, 255).build(b, "%s.%d" % (name, i)) for i in range(4)]
+        if b.mode == 'sym':
+            return SIPStr(octs)
+        return '.'.join(str(o) for o in octs)
 
 class Const(Shape):
     def __init__(self, v):
@@ -385,7 +403,7 @@ class Contract(object):
     def __init__(self, target, params, requires=None, raises=None, post=None, ensures=None, modifies=None,
                  havoc=None, only_raises=None, unchanged_on_raise=None, name=None, namespace=None,
                  inputs=None, ghost=None, resolver=None, max_paths=None, note=None, trusted=False,
-                 calls=None, applies_when=None, result_new=None):
+                 calls=None, applies_when=None, result_new=None, region=None):
         self.target_spec = target
         self.name = name or (target if isinstance(target, str) else getattr(target, '__qualname__', str(target)))
         self.params = dict(params)
@@ -404,6 +422,7 @@ class Contract(object):
         self.trusted = trusted        # contract assumed, body not verified (listed in evidence)
         self.applies_when = CExpr(applies_when) if applies_when else None
         self.result_new = result_new      # class spec: the result is a fresh instance of this class
+        self.region = region              # fn(FunctionDef) -> list of statements: the contract is on that block of the function
         self._func = None
         self._sig = None
 
@@ -418,7 +437,10 @@ class Contract(object):
 
     def qualname(self):
         f = self.func
-        return f.__module__.split('.')[-1] + '.' + f.__qualname__
+        q = f.__module__.split('.')[-1] + '.' + f.__qualname__
+        if self.name.endswith(']') and '[' in self.name:
+            q += self.name[self.name.index('['):]      # several contracts on one function are told apart by their variant
+        return q
 
     # -- frames -------------------------------------------------------------
 
@@ -511,6 +533,8 @@ class Contract(object):
         return env
 
     def call_args(self, env):
+        if self.region is not None:
+            return [], {}
         sig = inspect.signature(self.func)
         args = []
         kwargs = {}
@@ -560,7 +584,10 @@ class Contract(object):
             args, kwargs = con.call_args(env)
             q = con.qualname()
             try:
-                result = I.call_function(con.func, args, kwargs, defclass=_defclass(con.func))
+                if con.region is not None:
+                    result = con.run_region(I, env)
+                else:
+                    result = I.call_function(con.func, args, kwargs, defclass=_defclass(con.func))
                 exc = None
             except PyRaise as pr:
                 exc = pr.exc
@@ -611,6 +638,39 @@ class Contract(object):
             return label
         return run
 
+    # -- contracts on a block of a function ----------------------------------------
+
+    def region_stmts(self):
+        node = SOURCES.node_for(self.func)
+        stmts = self.region(node)
+        if not stmts:
+            raise RuntimeError("contract %s: the code block it is attached to was not found" % self.name)
+        return stmts
+
+    def run_region(self, I, env):
+        """interpret the selected statements of the real function in a frame
+        whose locals are the contract's parameters"""
+        from .interp import ReturnEx
+        fr = Frame(func=self.func, globs=self.func.__globals__, defclass=_defclass(self.func))
+        fr.locals.update(env)
+        fr.self_obj = env.get('self')
+        I.call_stack.append(self.qualname() + '[block]')
+        try:
+            try:
+                I.ex_block(self.region_stmts(), fr)
+            except ReturnEx as r:
+                return r.value
+        finally:
+            I.call_stack.pop()
+        return None
+
+    def run_region_native(self, env):
+        mod = ast.Module(body=list(self.region_stmts()), type_ignores=[])
+        code = compile(mod, self.func.__code__.co_filename, 'exec')
+        loc = dict(env)
+        exec(code, self.func.__globals__, loc)
+        return None
+
     # -- native replay -------------------------------------------------------
 
     def native_check(self, values, rng=None):
@@ -638,7 +698,10 @@ class Contract(object):
         ext = _native_externals()
         ext.__enter__()
         try:
-            result = f(*args, **kwargs)
+            if self.region is not None:
+                result = self.run_region_native(env)
+            else:
+                result = f(*args, **kwargs)
             exc = None
         except Exception as e:
             exc = e
@@ -1012,6 +1075,16 @@ class UnitResult(object):
                                               'unsupported', 'budget', 'solver_s', 'checks', 'assumptions', 'inlined',
                                               'used_contracts', 'notes', 'wall_s', 'error')}
 
+class _ContractChoice(object):
+    def __init__(self, alts):
+        self.alts = list(alts)
+    def apply(self, I, func, args, kwargs):
+        for c in self.alts:
+            r = c.apply(I, func, args, kwargs)
+            if r is not NotImplemented:
+                return r
+        return NotImplemented
+
 def make_config(repo_root, verif_root, unit=None, extra_models=None):
     cfg = Config([repo_root], [verif_root])
     for c in REGISTRY.values():
@@ -1019,7 +1092,17 @@ def make_config(repo_root, verif_root, unit=None, extra_models=None):
             f = c.func
         except Exception as e:
             raise RuntimeError("contract %s: cannot resolve target: %r" % (c.name, e))
-        cfg.contracts[id(f)] = c
+        if getattr(c, 'region', None) is not None:
+            continue        # a contract on a block is verified, never substituted for calls of the function
+        prev = cfg.contracts.get(id(f))
+        if prev is not None and prev is not c:
+            # several contracts on one function, told apart by applies_when: tried in registration order
+            if isinstance(prev, _ContractChoice):
+                prev.alts.append(c)
+            else:
+                cfg.contracts[id(f)] = _ContractChoice([prev, c])
+        else:
+            cfg.contracts[id(f)] = c
         cfg.contract_funcs[id(f)] = f
     cfg.models[id(requires)] = _m_requires
     cfg.models[id(check)] = _m_check
@@ -1040,7 +1123,11 @@ def verify_unit(unit, repo_root, verif_root, rlimit=20000000, timeout_ms=60000, 
             cfg.current_lemma = unit.name
             for nm in unit.uses_bodies:
                 c = REGISTRY[nm]
-                cfg.contracts.pop(id(c.func), None)
+                cur = cfg.contracts.get(id(c.func))
+                if isinstance(cur, _ContractChoice):
+                    cur.alts = [a for a in cur.alts if a is not c]
+                else:
+                    cfg.contracts.pop(id(c.func), None)
         else:
             cfg.target = unit.func
         prog = unit.program(cfg)
